@@ -909,6 +909,24 @@ func (c *Ctx) ruleTerm(rule string, roots []*ssa.Function, schemaMode bool) {
 		if !bad {
 			continue
 		}
+		if e.from == e.to {
+			// a self-recursion that keeps the list of what it has descended into, and returns where the next target is
+			// already on it, is bounded by the number of targets, provided no other way leads back into the function
+			confined := true
+			for _, x := range allEdges[e.from] {
+				if x.to != e.from && reachAll(x.to)[e.from] {
+					confined = false
+				}
+			}
+			if why := c.visitedPathGuard(e); why != "" && confined {
+				k := key(rule, "class A", c.M.Key(e.from)+" -> "+c.M.Key(e.to)+" ("+e.desc+"): bounded by a visited path")
+				if !seenA[k] {
+					seenA[k] = true
+					c.R.Ok(rule, k, c.M.InstrPos(e.site), "self-recursion through a reference cycle that is not driven by the input", why)
+				}
+				continue
+			}
+		}
 		k := key(rule, "class A", c.M.Key(e.from)+" -> "+c.M.Key(e.to)+" ("+e.desc+")"+c.entryGuards(edges, e))
 		if seenA[k] {
 			continue
@@ -917,6 +935,132 @@ func (c *Ctx) ruleTerm(rule string, roots []*ssa.Function, schemaMode bool) {
 		c.R.Bad(rule, k, c.M.InstrPos(e.site), "recursion through a reference cycle that is not driven by the input",
 			"the call "+c.M.Key(e.from)+" -> "+c.M.Key(e.to)+" hands on data that is not a strict component of the caller's input ("+e.desc+") and lies on a cycle of non-descending calls through the reference dereference in "+c.M.Key(via.from)+"; on a recursive reference the recursion is bounded by nothing")
 	}
+}
+
+// visitedPathGuard: the recursive call e (a function calling itself) passes, for a slice parameter P, the slice
+// append(S', X) where S' is a re-slice of S, S is P itself or P / a literal first element, and X is an SDK-typed value
+// (an object of the schema: there are finitely many); and the call is only reached after a range loop over S has run
+// to its end, every iteration of which returns where the element equals X. Every level therefore adds a target that
+// was not on the path: the depth is bounded by the number of distinct targets.
+func (c *Ctx) visitedPathGuard(e termEdge) string {
+	fn := e.from
+	call := e.site.Common()
+	if len(call.Args) == 0 {
+		return ""
+	}
+	for ai, a := range call.Args {
+		if _, isSlice := a.Type().Underlying().(*types.Slice); !isSlice {
+			continue
+		}
+		app, ok := a.(*ssa.Call)
+		if !ok {
+			continue
+		}
+		bi, ok := app.Call.Value.(*ssa.Builtin)
+		if !ok || bi.Name() != "append" || len(app.Call.Args) != 2 {
+			continue
+		}
+		// the appended element
+		var target ssa.Value
+		if sl, ok := app.Call.Args[1].(*ssa.Slice); ok {
+			if al, ok := sl.X.(*ssa.Alloc); ok {
+				n := 0
+				for _, r := range *al.Referrers() {
+					ia, ok := r.(*ssa.IndexAddr)
+					if !ok {
+						continue
+					}
+					for _, r2 := range *ia.Referrers() {
+						if st, ok := r2.(*ssa.Store); ok && st.Addr == ssa.Value(ia) {
+							target = st.Val
+							n++
+						}
+					}
+				}
+				if n != 1 {
+					target = nil
+				}
+			}
+		}
+		if target == nil || !c.isSDKValue(target) {
+			continue
+		}
+		// the base slice
+		base := app.Call.Args[0]
+		for {
+			if sl, ok := base.(*ssa.Slice); ok {
+				base = sl.X
+				continue
+			}
+			break
+		}
+		// base is the parameter of the same position, or a phi of it and fresh literals
+		if ai >= len(fn.Params) {
+			continue
+		}
+		param := ssa.Value(fn.Params[ai])
+		fromParam := base == param
+		if phi, ok := base.(*ssa.Phi); ok {
+			fromParam = false
+			for _, ed := range phi.Edges {
+				if ed == param {
+					fromParam = true
+				}
+			}
+		}
+		if !fromParam {
+			continue
+		}
+		// the scan: a block comparing an element of base with the target, returning on equality and otherwise going back
+		// to a loop header whose exit dominates the call
+		for _, b := range fn.Blocks {
+			if len(b.Instrs) == 0 {
+				continue
+			}
+			ifi, ok := b.Instrs[len(b.Instrs)-1].(*ssa.If)
+			if !ok {
+				continue
+			}
+			bin, ok := ifi.Cond.(*ssa.BinOp)
+			if !ok || bin.Op != token.EQL {
+				continue
+			}
+			elemOK := false
+			for _, pr := range [][2]ssa.Value{{bin.X, bin.Y}, {bin.Y, bin.X}} {
+				if pr[1] != target {
+					continue
+				}
+				if ld, ok := pr[0].(*ssa.UnOp); ok {
+					if ia, ok := ld.X.(*ssa.IndexAddr); ok && ia.X == base {
+						elemOK = true
+					}
+				}
+			}
+			if !elemOK {
+				continue
+			}
+			returns := false
+			for _, in := range b.Succs[0].Instrs {
+				if _, ok := in.(*ssa.Return); ok {
+					returns = true
+				}
+			}
+			header := b.Succs[1]
+			if !returns || len(header.Instrs) == 0 || !strings.HasPrefix(header.Comment, "rangeindex") {
+				continue
+			}
+			hif, ok := header.Instrs[len(header.Instrs)-1].(*ssa.If)
+			if !ok || header.Succs[0] != b {
+				continue
+			}
+			_ = hif
+			done := header.Succs[1]
+			if done.Dominates(e.site.Block()) {
+				return "the recursive call extends its " + fn.Params[ai].Name() + " parameter by the object it descends into, and is reached only after a scan of that list has found the object absent (a match returns): the depth is bounded by the number of objects of the schema, and no other call leads back into the function"
+			}
+		}
+	}
+	return ""
 }
 
 // entryGuards describes, for a re-seeding edge e, how its source function is entered from outside: the calling
